@@ -106,7 +106,12 @@ func rankCompletionItemsByScore(scored []scoredItem, counts map[string]int, quer
 			countI = counts[scored[i].item.Label]
 			countJ = counts[scored[j].item.Label]
 		}
-		return countI > countJ
+		if countI != countJ {
+			return countI > countJ
+		}
+		// equal score and usage: a fixed order, so that the list and any
+		// truncation of it are reproducible
+		return scored[i].item.Label < scored[j].item.Label
 	})
 
 	items := make([]protocol.CompletionItem, len(scored))
@@ -419,7 +424,17 @@ func getAccountsForPrefix(accounts *analyzer.AccountIndex, prefix string) []stri
 		return accounts.All
 	}
 
-	if accs, ok := accounts.ByPrefix[prefix]; ok {
+	// Matching ignores case everywhere else, so the parent typed as "ASSETS:"
+	// must find "assets:cash" too; the by-prefix index is exact-case and would
+	// return only what the user just typed.
+	lowerPrefix := strings.ToLower(prefix)
+	var accs []string
+	for _, name := range accounts.All {
+		if strings.HasPrefix(strings.ToLower(name), lowerPrefix) {
+			accs = append(accs, name)
+		}
+	}
+	if len(accs) > 0 {
 		return accs
 	}
 
@@ -652,8 +667,7 @@ func calculateTextEditRange(content string, pos protocol.Position, ctxType Compl
 		} else if strings.HasPrefix(line, directiveApplyAccount) {
 			startByte = len(directiveApplyAccount)
 		} else {
-			trimmed := strings.TrimLeft(line[:byteCol], " \t")
-			startByte = byteCol - len(trimmed)
+			startByte = accountFragmentStart(line[:byteCol])
 		}
 	case ContextCommodity:
 		if strings.HasPrefix(line, directiveCommodity) {
@@ -662,13 +676,7 @@ func calculateTextEditRange(content string, pos protocol.Position, ctxType Compl
 			startByte = findCommodityStart(line, byteCol)
 		}
 	case ContextPayee:
-		spaceIdx := strings.Index(line[:byteCol], " ")
-		if spaceIdx != -1 {
-			startByte = spaceIdx + 1
-			for startByte < byteCol && (line[startByte] == ' ' || line[startByte] == '*' || line[startByte] == '!') {
-				startByte++
-			}
-		}
+		startByte = payeeFragmentStart(line[:byteCol])
 	default:
 		return nil
 	}
@@ -684,6 +692,56 @@ func calculateTextEditRange(content string, pos protocol.Position, ctxType Compl
 		Start: protocol.Position{Line: pos.Line, Character: uint32(startChar)},
 		End:   pos,
 	}
+}
+
+// accountFragmentStart returns where the account being typed starts on a
+// posting line cut at the cursor: after the indent, an optional status mark
+// and the bracket of a virtual posting, none of which belong to the name.
+func accountFragmentStart(beforeCursor string) int {
+	i := 0
+	for i < len(beforeCursor) && (beforeCursor[i] == ' ' || beforeCursor[i] == '\t') {
+		i++
+	}
+	if i < len(beforeCursor) && (beforeCursor[i] == '*' || beforeCursor[i] == '!') {
+		j := i + 1
+		for j < len(beforeCursor) && beforeCursor[j] == ' ' {
+			j++
+		}
+		if j > i+1 || j == len(beforeCursor) {
+			i = j
+		}
+	}
+	if i < len(beforeCursor) && (beforeCursor[i] == '(' || beforeCursor[i] == '[') {
+		i++
+	}
+	return i
+}
+
+// payeeFragmentStart returns where the payee being typed starts on a
+// transaction header cut at the cursor: after the date, an optional status
+// mark and an optional (code).
+func payeeFragmentStart(beforeCursor string) int {
+	i := strings.Index(beforeCursor, " ")
+	if i == -1 {
+		return len(beforeCursor)
+	}
+	skipBlanks := func() {
+		for i < len(beforeCursor) && beforeCursor[i] == ' ' {
+			i++
+		}
+	}
+	skipBlanks()
+	if i < len(beforeCursor) && (beforeCursor[i] == '*' || beforeCursor[i] == '!') {
+		i++
+		skipBlanks()
+	}
+	if i < len(beforeCursor) && beforeCursor[i] == '(' {
+		if end := strings.Index(beforeCursor[i:], ")"); end != -1 {
+			i += end + 1
+			skipBlanks()
+		}
+	}
+	return i
 }
 
 func findCommodityStart(line string, byteCol int) int {
@@ -723,15 +781,22 @@ func extractQueryText(content string, pos protocol.Position, ctxType CompletionC
 		if after, found := strings.CutPrefix(beforeCursor, directiveApplyAccount); found {
 			return after
 		}
-		trimmed := strings.TrimLeft(beforeCursor, " \t")
-		return trimmed
+		return beforeCursor[accountFragmentStart(beforeCursor):]
 
 	case ContextPayee:
-		_, after, found := strings.Cut(beforeCursor, " ")
-		if !found {
+		if !strings.Contains(beforeCursor, " ") {
 			return ""
 		}
-		return strings.TrimLeft(after, " ")
+		return beforeCursor[payeeFragmentStart(beforeCursor):]
+
+	case ContextTagName:
+		// the tag being typed starts after the last "," or the ";"
+		start := strings.LastIndexAny(beforeCursor, ",;") + 1
+		return strings.TrimLeft(beforeCursor[start:], " \t")
+
+	case ContextTagValue:
+		start := strings.LastIndex(beforeCursor, ":") + 1
+		return strings.TrimLeft(beforeCursor[start:], " \t")
 
 	case ContextCommodity:
 		if after, found := strings.CutPrefix(beforeCursor, directiveCommodity); found {
